@@ -7,6 +7,7 @@ import (
 	"errors"
 	"fmt"
 	"testing"
+	"time"
 
 	"github.com/mk6i/mkdb/storage"
 	"pgregory.net/rapid"
@@ -20,6 +21,7 @@ import (
 type c16Case struct {
 	Stmts []model.Stmt `json:"stmts"`
 	Cache int          `json:"cache"`
+	Deep  bool         `json:"deep,omitempty"`
 }
 
 func c16Gen(rt *rapid.T) c16Case {
@@ -34,6 +36,54 @@ func c16Gen(rt *rapid.T) c16Case {
 		cfg.MaxTables, cfg.MaxCols, cfg.MinStmts = 14, 5, 40
 	}
 	db := model.NewDB()
+	if rapid.IntRange(0, 24).Draw(rt, "deep") == 9 {
+		// one table grown (in statements that fit the cache) to the size where
+		// the tree gets a third level, then single-row work at its right edge
+		// mixed with reads that push the fresh upper-level pages out of the cache
+		c.Cache = rapid.IntRange(16, 40).Draw(rt, "cache_deep")
+		per := 4 * (c.Cache - 8)
+		add := func(s model.Stmt) {
+			s.SQL = gen.RenderStmt(gen.Plain(), s)
+			gen.MustApply(db, s)
+			c.Stmts = append(c.Stmts, s)
+		}
+		add(model.Stmt{Kind: "create", Table: "big", Cols: []model.Col{{Name: "a", Type: model.TInt}, {Name: "s", Type: model.TVarchar, Len: 8}}})
+		next := 0
+		ins := func(k int) {
+			s := model.Stmt{Kind: "insert", Table: "big"}
+			for i := 0; i < k; i++ {
+				s.Rows = append(s.Rows, []model.Val{model.Int(int64(next)), model.Str("v")})
+				next++
+			}
+			add(s)
+		}
+		target := rapid.SampledFrom([]int{1150, 1158, 1162}).Draw(rt, "deep_rows")
+		for next < target {
+			k := per
+			if target-next < k {
+				k = target - next
+			}
+			ins(k)
+		}
+		eq := func(v int64) *model.Cond {
+			lit := model.Int(v)
+			return &model.Cond{Or: [][]model.Cmp{{{L: model.Operand{Col: "a"}, Op: "=", R: model.Operand{Lit: &lit}}}}}
+		}
+		for k := rapid.IntRange(12, 40).Draw(rt, "deep_ops"); k > 0; k-- {
+			switch rapid.IntRange(0, 5).Draw(rt, "deep_op") {
+			case 0, 1, 2:
+				ins(1)
+			case 3:
+				ins(rapid.IntRange(2, 4).Draw(rt, "deep_ins"))
+			case 4:
+				add(model.Stmt{Kind: "delete", Table: "big", Where: eq(int64(next - 1 - rapid.IntRange(0, 600).Draw(rt, "deep_del")))})
+			case 5:
+				add(model.Stmt{Kind: "update", Table: "big", Set: []model.Assign{{Col: "s", Val: model.Str("u")}}, Where: eq(int64(next - 1 - rapid.IntRange(0, 600).Draw(rt, "deep_upd")))})
+			}
+		}
+		c.Deep = true
+		return c
+	}
 	n := rapid.IntRange(cfg.MinStmts, cfg.MaxStmts).Draw(rt, "nstmts")
 	rejected := 0
 	for len(c.Stmts) < n {
@@ -130,7 +180,7 @@ func c16Run(c c16Case, st *vlib.Stats) string {
 	mB := model.NewDB()
 	for i, s := range c.Stmts {
 		mB.Apply(s)
-		err := engB.ExecStmt(s)
+		err := ExecWatched(engB, s, 30*time.Second, st, "C16", b, fmt.Sprintf("cache of %d pages: statement %d (which returned at once with the default cache)", c.Cache, i))
 		if err != nil {
 			if errors.Is(err, storage.ErrLRUCacheFull) {
 				return fmt.Sprintf("cache of %d pages: statement %d hit 'cache full' although its dirty set fits (%d dirty pages resident): %s", c.Cache, i, len(engB.RS().VerifDirtyOffsets()), s)
@@ -176,6 +226,9 @@ func c16Run(c c16Case, st *vlib.Stats) string {
 	_, _, nextFree, _ := engB.RS().VerifHeader()
 	pages := int(nextFree / pageSize)
 	labels := []string{fmt.Sprintf("db-pages-%dx-cache", pages/c.Cache)}
+	if c.Deep {
+		labels = append(labels, "tree-grows-third-level")
+	}
 	if reloads > 0 {
 		labels = append(labels, "pages-reloaded-from-disk")
 	}
